@@ -69,6 +69,10 @@ type c05Scenario struct {
 	extra []c05Out
 	gz    bool // the outputs are compressed (-Z): gunzipped before any comparison
 	light bool // fewer configurations (scenario added for a second option set of an already covered command)
+	nrec  int       // number of records of the generated inputs (0: 24 quick / 60 thorough)
+	trail string    // bytes the command prints on stdout after its last record (obitag: an empty line): checked and removed
+	cfgs  []c05Cfg  // the parallelism configurations of the scenario (nil: c05Configs / c05LightConfigs)
+	stress int      // number of records of the stress runs (0: 4000)
 }
 
 var c05Scenarios = []c05Scenario{
@@ -133,6 +137,22 @@ var c05Scenarios = []c05Scenario{
 	{name: "count-variants", cmd: "obicount", args: []string{"-v", "-r"}, kind: "opaque", input: "fasta", light: true},
 	// ---- the output SET (not its order) is claimed
 	{name: "uniq", cmd: "obiuniq", args: []string{"--in-memory"}, kind: "set", input: "uniq", light: true},
+	// ---- group-by commands with the model of the command itself (C06 `uniqCRC`, C13 `cleanDataset`): the section of
+	// the case line holds the INPUT records. obiuniq is compared as a multiset of (sequence, count, categories and the
+	// other surviving attributes, merged maps), between configurations AND with the model.
+	// many records per (sequence, category) class, 1 / 2 / 8 / 16 workers: the category stage of every worker
+	{name: "uniq-mem-cat", cmd: "obiuniq", args: []string{"--in-memory", "-c", "sample", "-m", "sample"}, kind: "uniq", input: "uniq-cat", nrec: 2000, stress: 3000,
+		cfgs: []c05Cfg{{cpu: 0, batch: 1000, gmp: 1}, {cpu: 2, batch: 100, gmp: 2}, {cpu: 8, batch: 50, gmp: 8}, {cpu: 16, batch: 10, gmp: 16}, {cpu: 8, batch: 1000, gmp: 8, in: "file"}, {cpu: 16, batch: 100, gmp: 16, aff: 2}}},
+	{name: "uniq-mem-cat2", cmd: "obiuniq", args: []string{"--in-memory", "-c", "sample", "-c", "k", "-m", "sample", "-m", "k", "--no-singleton"}, kind: "uniq", input: "uniq-cat", nrec: 160, light: true, stress: 2000},
+	{name: "uniq-disk-cat", cmd: "obiuniq", args: []string{"-c", "sample", "-m", "sample", "-m", "n"}, kind: "uniq", input: "uniq-cat", nrec: 160, light: true, stress: 1000},
+	{name: "uniq-mem-ns", cmd: "obiuniq", args: []string{"--in-memory", "--no-singleton", "-m", "sample"}, kind: "uniq", input: "uniq-cat", nrec: 160, light: true, stress: 1000},
+	// obiclean: per-sample graphs of a dereplicated data set; the records written, in output order, against C13
+	{name: "clean", cmd: "obiclean", args: []string{"-r", "0.5"}, kind: "clean", input: "clean", nrec: 40, stress: 500},
+	{name: "clean-head", cmd: "obiclean", args: []string{"-H"}, kind: "clean", input: "clean", nrec: 40, light: true, stress: 300},
+	// obitag against a small reference data base with tied references: every query alone is the model of the run
+	{name: "tag", cmd: "obitag", kind: "records", input: "tag", trail: "\n", stress: 1500},
+	// obisummary of a cleaned data set: the obiclean_bad column is printed (every record carries obiclean_status)
+	{name: "summary-cleaned", cmd: "obisummary", kind: "opaque", input: "fasta-cleaned", light: true},
 	// ---- identity conversion of a large annotated file: the output must be the input, byte for byte, in every run
 	{name: "convert-bigannot", cmd: "obiconvert", kind: "opaque", input: "bigannot"},
 }
@@ -199,6 +219,14 @@ func c05SbLen(r *rand.Rand, i, nrec int) int {
 // For "pairs" each record has two texts (forward file, reverse file).
 func c05Records(sc *c05Scenario, seed int64, nrec int) [][2]string {
 	r := rand.New(rand.NewSource(seed*7919 + int64(len(sc.name))))
+	switch sc.input {
+	case "uniq-cat":
+		return c05UniqCatRecords(r, nrec)
+	case "clean":
+		return c05CleanRecords(r, nrec)
+	case "tag":
+		return c05TagRecords(r, nrec)
+	}
 	recs := make([][2]string, nrec)
 	for i := 0; i < nrec; i++ {
 		id := fmt.Sprintf("s%03d", i)
@@ -242,6 +270,12 @@ func c05Records(sc *c05Scenario, seed int64, nrec int) [][2]string {
 				fmt.Fprintf(&sb, ">%s {\"count\":%d,\"sample\":\"sm%d\",\"k%d\":\"v\"}\n", id, 1+r.Intn(4), r.Intn(5), r.Intn(6))
 			}
 			c05Fold(&sb, c05Dna(r, n))
+			recs[i][0] = sb.String()
+		case "fasta-cleaned":
+			var sb strings.Builder
+			st := []string{"h", "i", "s"}
+			fmt.Fprintf(&sb, ">%s {\"merged_sample\":{\"a\":%d,\"b\":%d},\"obiclean_status\":{\"a\":\"%s\",\"b\":\"%s\"},\"obiclean_weight\":{\"a\":%d,\"b\":1}}\n", id, 1+r.Intn(3), 1+r.Intn(5), st[r.Intn(3)], st[r.Intn(3)], 1+r.Intn(9))
+			c05Fold(&sb, c05Dna(r, 10+r.Intn(80)))
 			recs[i][0] = sb.String()
 		case "uniq":
 			// few distinct sequences, many copies
@@ -424,6 +458,12 @@ type c05Cfg struct {
 	in              string // "stdin", "file", "gz"
 	aff             int    // number of cores the process is pinned on, 0 = no pinning
 	race            bool
+	// how cpu / batch are given to the command: "" = --max-cpu / --batch-size (cpu=0: --force-one-cpu);
+	// "var" = the environment variables OBIMAXCPU / OBIBATCHSIZE and no option; "both" = options, with contradicting
+	// values in the environment (OBIMAXCPU=1 OBIBATCHSIZE=1000: the options win); "f1" = --force-one-cpu together with
+	// --max-cpu; "none" = neither option nor variable (all the cores, batches of the command's default size), the
+	// GOMAXPROCS variable still being set
+	env string
 }
 
 // c05Res is what a run gave
@@ -498,13 +538,24 @@ func c05RunOnce(sc *c05Scenario, recs [][2]string, cfg c05Cfg) (res c05Res, infr
 	c05BinMu.Lock()
 	flags := c05Flags[sc.cmd]
 	c05BinMu.Unlock()
-	if cfg.cpu == 0 && flags["--force-one-cpu"] {
-		args = append(args, "--force-one-cpu")
-	} else if flags["--max-cpu"] {
-		args = append(args, "--max-cpu", strconv.Itoa(max(cfg.cpu, 1)))
-	}
-	if flags["--batch-size"] {
-		args = append(args, "--batch-size", strconv.Itoa(cfg.batch))
+	var envx []string
+	switch cfg.env {
+	case "var":
+		envx = append(envx, "OBIMAXCPU="+strconv.Itoa(max(cfg.cpu, 1)), "OBIBATCHSIZE="+strconv.Itoa(cfg.batch))
+	case "none":
+	default:
+		if cfg.env == "both" {
+			envx = append(envx, "OBIMAXCPU=1", "OBIBATCHSIZE=1000")
+		}
+		if (cfg.cpu == 0 || cfg.env == "f1") && flags["--force-one-cpu"] {
+			args = append(args, "--force-one-cpu")
+		}
+		if (cfg.cpu != 0 || !flags["--force-one-cpu"]) && flags["--max-cpu"] {
+			args = append(args, "--max-cpu", strconv.Itoa(max(cfg.cpu, 1)))
+		}
+		if flags["--batch-size"] {
+			args = append(args, "--batch-size", strconv.Itoa(cfg.batch))
+		}
 	}
 	if flags["--no-progressbar"] {
 		args = append(args, "--no-progressbar")
@@ -566,6 +617,10 @@ func c05RunOnce(sc *c05Scenario, recs [][2]string, cfg c05Cfg) (res c05Res, infr
 			os.WriteFile(filepath.Join(dir, "sheet.csv"), []byte(c05Sheet), 0o644)
 			args = append(args, "-t", filepath.Join(dir, "sheet.csv"))
 		}
+		if sc.input == "tag" {
+			taxdir, refs := c05TagFiles(dir)
+			args = append(args, "-t", taxdir, "-R", refs)
+		}
 		if cfg.in == "file" || cfg.in == "gz" {
 			args = append(args, put("in"+ext, a.String()))
 		} else {
@@ -591,7 +646,13 @@ func c05RunOnce(sc *c05Scenario, recs [][2]string, cfg c05Cfg) (res c05Res, infr
 	if useStdin {
 		cmd.Stdin = strings.NewReader(stdin)
 	}
-	cmd.Env = append(os.Environ(), "GOMAXPROCS="+strconv.Itoa(cfg.gmp))
+	for _, e := range os.Environ() {
+		if !strings.HasPrefix(e, "OBIMAXCPU=") && !strings.HasPrefix(e, "OBIBATCHSIZE=") && !strings.HasPrefix(e, "GOMAXPROCS=") {
+			cmd.Env = append(cmd.Env, e)
+		}
+	}
+	cmd.Env = append(cmd.Env, "GOMAXPROCS="+strconv.Itoa(cfg.gmp))
+	cmd.Env = append(cmd.Env, envx...)
 	if cfg.race {
 		cmd.Env = append(cmd.Env, "GORACE=halt_on_error=0 exitcode=0")
 	}
@@ -683,7 +744,16 @@ func c05RunOnce(sc *c05Scenario, recs [][2]string, cfg c05Cfg) (res c05Res, infr
 		}
 		return u
 	}
-	res.streams = append(res.streams, unz(stdout.Bytes()))
+	so := unz(stdout.Bytes())
+	if sc.trail != "" {
+		if bytes.HasSuffix(so, []byte(sc.trail)) {
+			so = so[:len(so)-len(sc.trail)]
+		} else if res.status == "ok" {
+			res.status = "no-trailer"
+			res.detail = fmt.Sprintf("stdout does not end with %q", sc.trail)
+		}
+	}
+	res.streams = append(res.streams, so)
 	for _, o := range sc.extra {
 		if o.kind == "dispatch" {
 			files := map[string][]byte{}
@@ -849,11 +919,15 @@ var c05Configs = []c05Cfg{
 	{cpu: 8, batch: 2, gmp: 8}, {cpu: 32, batch: 5, gmp: 16}, {cpu: 4, batch: 1, gmp: 1},
 	{cpu: 0, batch: 2, gmp: 1}, {cpu: 4, batch: 1000, gmp: 4, in: "file"}, {cpu: 2, batch: 2, gmp: 2, in: "gz"},
 	{cpu: 16, batch: 1, gmp: 16, aff: 1}, {cpu: 2, batch: 4, gmp: 2, aff: 2},
+	// the environment as a configuration dimension
+	{cpu: 8, batch: 3, gmp: 2, env: "var"}, {cpu: 1, batch: 5, gmp: 32, env: "var"}, {cpu: 4, batch: 2, gmp: 1, env: "both"},
+	{cpu: 8, batch: 2, gmp: 8, env: "f1"}, {cpu: 16, batch: 1000, gmp: 3, env: "none"},
 }
 
 var c05LightConfigs = []c05Cfg{
 	{cpu: 1, batch: 1000, gmp: 4}, {cpu: 2, batch: 3, gmp: 4}, {cpu: 8, batch: 1, gmp: 8}, {cpu: 0, batch: 2, gmp: 1},
 	{cpu: 4, batch: 1000, gmp: 4, in: "file"}, {cpu: 16, batch: 2, gmp: 16, aff: 1},
+	{cpu: 8, batch: 3, gmp: 2, env: "var"}, {cpu: 4, batch: 2, gmp: 1, env: "both"},
 }
 
 func c05Line(op string, sc *c05Scenario, seed int64, nrec int, cfg c05Cfg, rep int) string {
@@ -863,6 +937,9 @@ func c05Line(op string, sc *c05Scenario, seed int64, nrec int, cfg c05Cfg, rep i
 	}
 	if cfg.aff > 0 {
 		l += " aff=" + strconv.Itoa(cfg.aff)
+	}
+	if cfg.env != "" {
+		l += " env=" + cfg.env
 	}
 	return l
 }
@@ -916,15 +993,21 @@ func (c05) Gen(rng *rand.Rand, tier string, emit func(string)) {
 		if sc.light {
 			cfgs = c05LightConfigs
 		}
+		if sc.cfgs != nil {
+			cfgs = sc.cfgs
+		}
 		for s := 0; s < seeds; s++ {
 			seed := rng.Int63n(1 << 30)
 			n := nrec
+			if sc.nrec > 0 {
+				n = sc.nrec
+			}
 			if s == 1 {
 				n = 1 + rng.Intn(5)
 			}
 			for _, cfg := range cfgs {
 				reps := 1
-				if cfg.cpu > 2 && !sc.light && cfg.in == "" {
+				if cfg.cpu > 2 && !sc.light && cfg.in == "" && cfg.env == "" {
 					reps = 2
 				}
 				for rep := 0; rep < reps; rep++ {
@@ -951,6 +1034,19 @@ func (c05) Gen(rng *rand.Rand, tier string, emit func(string)) {
 		sn := 4000
 		if strings.HasSuffix(sc.input, "-sb") {
 			sn = 600 // records of several kilobytes
+		}
+		if sc.stress > 0 {
+			sn = sc.stress
+		}
+		if sc.input == "tag" {
+			// the candidate lists of obitag are ordered by an unstable sort (ties on the shared 4-mer counts, tied
+			// references): the same input 30 times, several worker counts
+			tseed := rng.Int63n(1 << 30)
+			for rep := 0; rep < 10; rep++ {
+				for _, w := range []int{2, 8, 16} {
+					add(c05Line("run", sc, tseed, 40, c05Cfg{cpu: w, batch: 1 + rep%3, gmp: w}, rep))
+				}
+			}
 		}
 		if sc.light && tier != "thorough" {
 			sn /= 4
@@ -1020,7 +1116,7 @@ func c05Prefetch(lines []string) {
 				c05PreMu.Unlock()
 				if p, ok := c05Parse(l); ok {
 					d.res = c05Run(p.sc, c05Records(p.sc, int64(p.seed), p.nrec), p.cfg)
-					if p.nrec <= 500 && p.sc.kind != "opaque" && p.sc.kind != "set" {
+					if p.nrec <= 500 && c05PerRecordKind(p.sc.kind) {
 						c05Singles(p.sc, int64(p.seed), p.nrec) // warms the cache
 					}
 				}
@@ -1028,6 +1124,15 @@ func c05Prefetch(lines []string) {
 			}
 		}()
 	}
+}
+
+// c05PerRecordKind : the kinds whose model data are the outputs of every record run alone
+func c05PerRecordKind(kind string) bool {
+	switch kind {
+	case "records", "csv", "count", "json", "summary":
+		return true
+	}
+	return false
 }
 
 type c05Case struct {
@@ -1073,6 +1178,8 @@ func c05Parse(c string) (c05Case, bool) {
 			p.cfg.in = x[3:]
 		case strings.HasPrefix(x, "aff=") && get(x, "aff") >= 0:
 			p.cfg.aff = get(x, "aff")
+		case x == "env=var" || x == "env=both" || x == "env=f1" || x == "env=none":
+			p.cfg.env = x[4:]
 		default:
 			return p, false
 		}
@@ -1271,6 +1378,9 @@ func (c05) Exec(c string) (string, []Fail) {
 	if sc.kind == "set" {
 		cmp = [][]byte{c05SetCanon(out)}
 	}
+	if sc.kind == "uniq" {
+		cmp = [][]byte{[]byte(c05UniqCanon(out, c05UniqOptsOf(sc).stats))}
+	}
 	key := fmt.Sprintf("%s/%d/%d", sc.name, p.seed, p.nrec)
 	c05RefMu.Lock()
 	ref, seen := c05Ref[key]
@@ -1288,8 +1398,11 @@ func (c05) Exec(c string) (string, []Fail) {
 	}
 	// data for the model: the per-record outputs (every record run alone), one section per output stream
 	kind := sc.kind
-	if p.nrec > 500 {
+	if p.nrec > 500 && !(kind == "uniq" && p.nrec <= 2500) {
 		kind = "opaque"
+	}
+	if kind == "clean" && p.nrec > 100 {
+		kind = "opaque" // the model runs the verbatim kernels on every pair of sequences
 	}
 	var result string
 	switch kind {
@@ -1338,6 +1451,16 @@ func (c05) Exec(c string) (string, []Fail) {
 		}
 		caseOverride = base + " | " + strings.Join(sections, " | ")
 		result = st + " " + strings.Join(results, " ")
+	case "uniq":
+		// the model of the command itself (C06) on the input records; the output as a multiset
+		recs := c05Records(sc, int64(p.seed), p.nrec)
+		caseOverride = base + " | " + c05UniqSection(sc, recs)
+		result = st + " " + string(cmp[0])
+		stat(fmt.Sprintf("uniq-classes:%s", c05Bucket(strings.Count(string(cmp[0]), ";")-1)))
+	case "clean":
+		recs := c05Records(sc, int64(p.seed), p.nrec)
+		caseOverride = base + " | " + c05CleanSection(sc, recs)
+		result = st + " " + c05CleanCanon(out)
 	default:
 		caseOverride = base + " | opaque"
 		result = st
@@ -1346,6 +1469,19 @@ func (c05) Exec(c string) (string, []Fail) {
 		caseTrivial = true
 	}
 	return result, fails
+}
+
+func c05Bucket(n int) string {
+	switch {
+	case n <= 0:
+		return "0"
+	case n < 10:
+		return "1-9"
+	case n < 100:
+		return "10-99"
+	default:
+		return "100+"
+	}
 }
 
 func firstDiff(a, b []byte) int {
